@@ -34,7 +34,7 @@ fn gen_plan(rng: &mut Rng) -> ReqPlan {
         1 => Finish::Drop,
         _ => Finish::Writer { status: 200, body_len: 5, parts: vec![(1000, true)], early_drop_sleep_us: 0 },
     };
-    ReqPlan { read, read_sizes: vec![*rng.pick(&[1usize, 100, 4096, 65536])], as_reader_calls: 1, finish, pre_delay_us: 0, zero_read_after: None }
+    ReqPlan { read, read_sizes: vec![*rng.pick(&[1usize, 100, 4096, 65536])], as_reader_calls: 1, finish, pre_delay_us: 0, zero_read_after: None, read_api: ReadApi::Read }
 }
 
 fn sprinkle(rng: &mut Rng, b: &mut Vec<u8>, n: usize) {
@@ -53,7 +53,7 @@ fn sprinkle(rng: &mut Rng, b: &mut Vec<u8>, n: usize) {
 }
 
 pub fn gen_case(rng: &mut Rng, thorough: bool) -> Case {
-    let class = rng.below(if thorough { 10 } else { 9 });
+    let class = if rng.chance(1, 40) { 99 } else { rng.below(if thorough { 10 } else { 9 }) };
     let mut plans = vec![gen_plan(rng), gen_plan(rng), gen_plan(rng)];
     let mut wire: Vec<u8>;
     let mut label;
@@ -131,6 +131,15 @@ pub fn gen_case(rng: &mut Rng, thorough: bool) -> Case {
             ]);
             wire = format!("POST /f HTTP/1.1\r\nHost: h\r\n{}\r\n\r\nhello world", v).into_bytes();
         }
+        99 => {
+            // very many requests on one connection that the library answers by itself
+            let n = *rng.pick(&[300usize, 3000, 20000]);
+            let v = *rng.pick(&["HTTP/2.0", "HTTP/3.0"]);
+            label = format!("many-505:{}", n);
+            let unit = format!("GET /x {}\r\nHost: h\r\n\r\n", v);
+            wire = unit.as_bytes().repeat(n);
+            wire.extend_from_slice(b"GET /last HTTP/1.1\r\nHost: h\r\nConnection: close\r\n\r\n");
+        }
         8 => {
             // header values that the library itself interprets, with hostile contents
             let te = *rng.pick(&[
@@ -154,7 +163,7 @@ pub fn gen_case(rng: &mut Rng, thorough: bool) -> Case {
         }
     }
     // everything truncated at random points
-    if rng.chance(1, 4) && wire.len() > 2 {
+    if class != 99 && rng.chance(1, 4) && wire.len() > 2 {
         let at = rng.range(1, wire.len() - 1);
         wire.truncate(at);
         label.push_str("+truncated");
@@ -162,7 +171,7 @@ pub fn gen_case(rng: &mut Rng, thorough: bool) -> Case {
     if rng.chance(1, 6) {
         plans.truncate(1);
     }
-    let end = match rng.below(3) {
+    let end = match if class == 99 { 2 } else { rng.below(3) } {
         0 => Step::Close,
         1 => Step::Reset,
         _ => Step::HalfClose,
@@ -292,17 +301,10 @@ pub fn run_case(ctx: &Ctx, env: &Env, cs: u64, side: &mut Option<std::fs::File>)
         });
         fired = true;
     }
-    let limit_volume = (1 << 20) + 64 * sent;
-    if !fired && st.volume > limit_volume {
-        rep.violation(Violation {
-            signature: format!("C14/allocation-volume/{}", class),
-            what: format!("{} bytes were allocated on behalf of a connection that had sent {} bytes", st.volume, sent),
-            detail: detail(J::Null),
-            case_seed: cs,
-            mode: "native".into(),
-        });
-        fired = true;
-    }
+    // The cumulative allocation volume is reported as evidence only. It is not memory *used*:
+    // 20 000 tiny pipelined requests legitimately allocate (and free) a few KiB each, 160 times
+    // the bytes received; judging it was an oracle stricter than the statement (see DESIGN 10).
+    rep.counts.max("max_allocation_volume_to_bytes_sent_ratio", st.volume / sent.max(1));
     if !fired && !obs.handlers_done && obs.healthy {
         rep.violation(Violation {
             signature: format!("C14/handler-blocked/{}", class),
